@@ -49,6 +49,8 @@ fn main() {
     mon::set_alloc_active(true);
     #[cfg(all(minicbor_verif, have_step_hook))]
     mon::register_step_hook(minicbor::verif::reset, minicbor::verif::steps);
+    #[cfg(all(minicbor_verif, have_stack_hook))]
+    mon::register_stack_hook(minicbor::verif::stack_reset, minicbor::verif::stack_low);
     let wd: u64 = std::env::var("VERIF_WATCHDOG_SECS").ok().and_then(|s| s.parse().ok()).unwrap_or(300);
     if wd > 0 {
         mon::start_watchdog(wd);
@@ -59,7 +61,7 @@ fn main() {
         .name("worker".into())
         .spawn(move || {
             let mut rep = Report::new(&a2.check, &a2.tier, a2.seed, a2.shard, a2.nshards);
-            rep.note(format!("step_hook={} io_hook={} alloc_monitor={}", mon::steps_available(), cfg!(have_io_hook), mon::alloc_active()));
+            rep.note(format!("step_hook={} stack_hook={} io_hook={} alloc_monitor={}", mon::steps_available(), mon::stack_available(), cfg!(have_io_hook), mon::alloc_active()));
             let replay = !a2.replay.is_empty();
             match a2.check.as_str() {
                 "c01" => if replay { c01::replay(&a2, &mut rep) } else { c01::run(&a2, &mut rep) },
